@@ -102,6 +102,11 @@ def uses_line(o):
     return "U " + " ".join(out)
 
 
+def _cost(x):
+    """integer costs stay Python ints (as in the library's defaults); dyadic rationals become floats"""
+    return float(x) if "." in x else int(x)
+
+
 def parse_spec(spec):
     """spec: class words as in the Lean driver. Returns a zero-argument constructor."""
     w = spec.split()
@@ -123,9 +128,9 @@ def parse_spec(spec):
         return mk
     if k in ("RV", "DR", "PD"):
         cls = {"RV": cs.Revolve, "DR": cs.DiskRevolve, "PD": cs.PeriodicDiskRevolve}[k]
-        return lambda: cls(int(w[1]), int(w[2]), *[int(x) for x in w[3:7]])
+        return lambda: cls(int(w[1]), int(w[2]), *[_cost(x) for x in w[3:7]])
     if k == "HR":
-        return lambda: cs.HRevolve(int(w[1]), int(w[2]), int(w[3]), *[int(x) for x in w[4:8]])
+        return lambda: cs.HRevolve(int(w[1]), int(w[2]), int(w[3]), *[_cost(x) for x in w[4:8]])
     raise ValueError(spec)
 
 
